@@ -819,6 +819,141 @@ def replay_expiry(flavour: str, args: dict[str, typing.Any]) -> bool:
     return not (conn._state == mod.HTTPConnectionState.CLOSED and closed)
 
 
+# ---------------------------------------------------------------------------
+# K7: interim (1xx) responses are skipped, whatever their number and codes (C02, C01)
+# ---------------------------------------------------------------------------
+
+_EV = {"Response": 1, "InformationalResponse": 2}
+
+
+def k_interim(flavour: str) -> list[Result]:
+    """HTTP11Connection._receive_response_headers over a sequence of up to N events with symbolic classes and
+    status codes (contract: informational responses carry 100..199, final ones 200..999)."""
+    import importlib
+
+    mod = importlib.import_module(f"httpcore.{'_async' if flavour == 'async' else '_sync'}.http11")
+    cls = getattr(mod, "AsyncHTTP11Connection" if flavour == "async" else "HTTP11Connection")
+    name = f"{cls.__name__}._receive_response_headers"
+    N = 6
+    tags = [z3.Int(f"class{i}") for i in range(N)]
+    codes = [z3.Int(f"status{i}") for i in range(N)]
+    vers = [z3.Const(f"version{i}", BYTES) for i in range(N)]
+    reasons = [z3.Const(f"reason{i}", BYTES) for i in range(N)]
+    TR = z3.Const("trailing", BYTES)
+    try:
+        fns = functions_of(cls)
+        keep = {k: v for k, v in fns.items() if k == "_receive_response_headers"}
+
+        def env(it: Interp, fn: str, args: list, kwargs: dict) -> typing.Any:
+            if fn.endswith("._receive_event"):
+                k = len([c for c in it.path.calls if c[0].endswith("._receive_event")])
+                it.path.calls.append((fn, tuple(args), kwargs))
+                if k >= N:
+                    raise UnwindingExceeded("more events than the bound")
+                return Obj(__tag__=tags[k], status_code=codes[k], http_version=vers[k], reason=reasons[k],
+                           headers=Obj(__index__=k))
+            if fn.endswith(".raw_items"):
+                it.path.calls.append((fn, tuple(args), kwargs))
+                return ("raw-items-of-the-returned-event",)
+            if fn.endswith("_h11_state.trailing_data"):
+                return (TR, False)
+            raise Unsupported(f"environment call {fn}")
+
+        def mk() -> dict[str, typing.Any]:
+            return {"self": Obj(_h11_state=Obj()), "request": Obj(extensions={})}
+
+        contract = []
+        for t, c in zip(tags, codes):
+            contract += [z3.Or(t == 1, t == 2), z3.Implies(t == 2, z3.And(c >= 100, c <= 199)), z3.Implies(t == 1, z3.And(c >= 200, c <= 999))]
+        # the bound: a final response (or a 101) arrives among the first N events
+        contract.append(z3.Or(*[z3.Or(t == 1, c == 101) for t, c in zip(tags, codes)]))
+        it = Interp(keep, env, unwind=N + 1, globals_={"h11": I._Namespace(**_EV)}, max_paths=512)
+        paths = it.explore("_receive_response_headers", mk, contract)
+    except (Unsupported, UnwindingExceeded) as e:
+        return [Result(name, "interim responses", "unsupported", str(e))]
+    except (z3.Z3Exception, TypeError, AttributeError, KeyError) as e:
+        return [Result(name, "interim responses", "unsupported", f"{type(e).__name__}: {e}")]
+
+    def first_final(j: int) -> typing.Any:
+        """event j is the first one that is a final response or a 101"""
+        fin = lambda i: z3.Or(tags[i] == 1, codes[i] == 101)  # noqa: E731
+        return z3.And(fin(j), *[z3.Not(fin(i)) for i in range(j)])
+
+    def prop(p: I.Path) -> typing.Any:
+        if p.raised is not None or not isinstance(p.ret, tuple) or len(p.ret) != 5:
+            return False
+        n_ev = len([c for c in p.calls if c[0].endswith("._receive_event")])
+        if not 1 <= n_ev <= N:
+            return False
+        j = n_ev - 1
+        ver, status, reason, headers, trailing = p.ret
+        return z3.And(first_final(j), status == codes[j], I.as_seq(reason) == reasons[j],
+                      I.as_seq(ver) == z3.Concat(I.seq_of(b"HTTP/"), vers[j]), I.as_seq(trailing) == TR,
+                      z3.Or(status >= 200, status == 101),
+                      z3.BoolVal(headers == ("raw-items-of-the-returned-event",)))
+
+    def cex(m: z3.ModelRef, p: I.Path) -> dict[str, typing.Any]:
+        ev = lambda x: m.eval(x, model_completion=True).as_long()  # noqa: E731
+        return {"events": [(ev(t), ev(c)) for t, c in zip(tags, codes)]}
+
+    return [_discharge(it, name, f"the response returned is the first event that is a final response (or a 101), with its own version, status, reason "
+                       f"and headers; every interim response before it is skipped - for every sequence of up to {N} events with symbolic classes and status codes",
+                       paths, prop, contract, cex)]
+
+
+def replay_interim(flavour: str, args: dict[str, typing.Any]) -> bool:
+    import importlib
+
+    from .. import vrt
+
+    mod = importlib.import_module(f"httpcore.{'_async' if flavour == 'async' else '_sync'}.http11")
+    cls = getattr(mod, "AsyncHTTP11Connection" if flavour == "async" else "HTTP11Connection")
+    import h11 as real_h11
+
+    evs = []
+    for i, (t, c) in enumerate(args["events"]):
+        hs = [(b"X-Index", str(i).encode())]
+        if t == 2 and 100 <= c <= 199:
+            evs.append(real_h11.InformationalResponse(status_code=c, headers=hs, reason=b"r%d" % i))
+        elif t == 1 and 200 <= c <= 999:
+            evs.append(real_h11.Response(status_code=c, headers=hs, reason=b"r%d" % i))
+        else:
+            evs.append(real_h11.Response(status_code=200, headers=hs, reason=b"r%d" % i))
+    want_i = next(i for i, e in enumerate(evs) if isinstance(e, real_h11.Response) or e.status_code == 101)
+    queue = list(evs)
+    conn = cls.__new__(cls)
+
+    class St:
+        trailing_data = (b"", False)
+
+    conn._h11_state = St()
+    if flavour == "async":
+        async def recv(timeout: typing.Any = None) -> typing.Any:
+            return queue.pop(0)
+    else:
+        def recv(timeout: typing.Any = None) -> typing.Any:  # type: ignore[misc]
+            return queue.pop(0)
+    conn._receive_event = recv
+
+    class Req:
+        extensions: dict = {}
+
+    saved = mod.h11
+    mod.h11 = real_h11
+    try:
+        if flavour == "async":
+            vrt.new_runtime()
+            out = vrt.run_single(conn._receive_response_headers(Req()))
+        else:
+            out = conn._receive_response_headers(Req())
+    except Exception:
+        return True
+    finally:
+        mod.h11 = saved
+    return not (out[1] == evs[want_i].status_code and out[2] == b"r%d" % want_i and len(queue) == len(evs) - want_i - 1
+                and out[3] == [(b"X-Index", str(want_i).encode())])
+
+
 def validate(seed: int = 0) -> tuple[int, list[str]]:
     """Runs the real functions and the interpreter (on concrete values) on
     random vectors; returns (vectors, mismatches)."""
